@@ -211,6 +211,63 @@ def c18_merge(q0: int, q1: int, q2: int) -> int:
     return _merge(q0, q1, q2)
 
 
+DD_TX = ['ENST0001', 'ENST0002']
+DD_VAR = ['SNV-1-A-T', 'SNV-7-G-C', 'SNV-1-A-T|ORF2']
+
+
+def _unversioned(entry):
+    return entry[:entry.rindex('|')]
+
+
+def _dedup_headers(t0, v0, i0, t1, v1, i1, t2, v2, i2):
+    """one peptide with three header entries TX|VARIANT[|ORF]|INDEX; the real remove_redundant_headers
+    may only drop an entry whose text up to the trailing index equals that of an entry it keeps"""
+    sel = [(concretize(t, 0, 1), concretize(v, 0, 2), concretize(i, 1, 2))
+           for t, v, i in ((t0, v0, i0), (t1, v1, i1), (t2, v2, i2))]
+    entries = [f'{DD_TX[t]}|{DD_VAR[v]}|{i}' for t, v, i in sel]
+    header = VARIANT_PEPTIDE_SOURCE_DELIMITER.join(entries)
+    pool = VariantPeptidePool()
+    rec = AminoAcidSeqRecord(Seq('AAAK'), _id=header, name=header, description=header)
+    pool.add_peptide(rec, None, skip_checking=True)
+    pool.remove_redundant_headers()
+    if len(pool.peptides) != 1:
+        return -1
+    pep = list(pool.peptides)[0]
+    if str(pep.seq) != 'AAAK':
+        return -1
+    got = pep.description.split(VARIANT_PEPTIDE_SOURCE_DELIMITER)
+    k = 0
+    for e in entries:              # kept entries are original entries in their original order
+        if k < len(got) and got[k] == e:
+            k += 1
+    if k != len(got):
+        return -2
+    kept = [_unversioned(e) for e in got]
+    for e in entries:
+        if _unversioned(e) not in kept:
+            return -3              # an entry naming another transcript / variant / ORF was dropped
+    if len(set(kept)) != len(kept):
+        return -4                  # entries differing only in the trailing index both kept
+    return OK
+
+
+@cond('C18', bounds='mergeFasta --dedup-header kernel: one peptide with 3 header entries, each transcript in 2 x '
+      'variant label in 3 (one with an ORF id) x trailing index in 2, every combination',
+      encodes=['moPepGen.aa.VariantPeptidePool.VariantPeptidePool.remove_redundant_headers'],
+      codes={-1: 'peptide lost or altered', -2: 'a kept entry is not an original entry (or order changed)',
+             -3: 'a header entry was dropped although no kept entry equals it up to the trailing index '
+                 '(union of header entries lost)',
+             -4: 'two entries differing only in the trailing index were both kept'}, timeout=400)
+def c18_dedup_header(t0: int, v0: int, i0: int, t1: int, v1: int, i1: int, t2: int, v2: int, i2: int) -> int:
+    """
+    pre: 0 <= t0 <= 1 and 0 <= t1 <= 1 and 0 <= t2 <= 1
+    pre: 0 <= v0 <= 2 and 0 <= v1 <= 2 and 0 <= v2 <= 2
+    pre: 1 <= i0 <= 2 and 1 <= i1 <= 2 and 1 <= i2 <= 2
+    post: _ >= 0
+    """
+    return _dedup_headers(t0, v0, i0, t1, v1, i1, t2, v2, i2)
+
+
 # ------------------------------------------------------------------ encode
 def mkstr(points):
     if under_shim():
